@@ -180,3 +180,63 @@ pub fn c14(args: &Args) {
     }
     println!("events {}", out.finish());
 }
+
+/// Search tool (not a check): strings salt(40 ASCII digits) || "corpus message" whose SHAKE-256 stream is extreme for Algorithm 3:
+/// most rejected chunks among the first 576 / 1152 samples, longest run of consecutive rejected chunks in the stream consumed for
+/// n = 1024.  Its output feeds `corpus::H2P_EXTREME`.
+pub fn h2psearch(args: &Args) {
+    let count = args.num("--count", 1_000_000);
+    let start = args.num("--start", 0);
+    let nthreads = args.num("--threads", 16);
+    let mut handles = vec![];
+    for t in 0..nthreads {
+        handles.push(std::thread::spawn(move || {
+            let (mut best576, mut best1152, mut bestrun, mut bestrun512) = (0usize, 0usize, 0usize, 0usize);
+            let mut i = start + t;
+            let mut buf = vec![0u8; 2 * 1400];
+            while i < start + count {
+                let s = format!("{:040}corpus message", i).into_bytes();
+                let mut h = sha3::Shake256::default();
+                h.update(&s);
+                let mut rd = h.finalize_xof();
+                rd.read(&mut buf);
+                let (mut got, mut rej, mut run, mut maxrun, mut maxrun512, mut rej576, mut rej1152) = (0usize, 0usize, 0usize, 0usize, 0usize, 0usize, 0usize);
+                let mut k = 0;
+                while got < 1024 && k < 1400 {
+                    let tt = ((buf[2 * k] as u32) << 8) | buf[2 * k + 1] as u32;
+                    if tt >= 61445 {
+                        rej += 1;
+                        run += 1;
+                        maxrun = maxrun.max(run);
+                        if got < 512 {
+                            maxrun512 = maxrun512.max(run);
+                        }
+                    } else {
+                        got += 1;
+                        run = 0;
+                    }
+                    k += 1;
+                    if k == 576 {
+                        rej576 = rej;
+                    }
+                    if k == 1152 {
+                        rej1152 = rej;
+                    }
+                }
+                if rej576 > best576 || rej1152 > best1152 || maxrun > bestrun || maxrun512 > bestrun512 {
+                    best576 = best576.max(rej576);
+                    best1152 = best1152.max(rej1152);
+                    bestrun = bestrun.max(maxrun);
+                    bestrun512 = bestrun512.max(maxrun512);
+                    if rej576 >= 62 || rej1152 >= 110 || maxrun >= 7 {
+                        println!("{{\"i\":{},\"rej576\":{},\"rej1152\":{},\"run1024\":{},\"run512\":{}}}", i, rej576, rej1152, maxrun, maxrun512);
+                    }
+                }
+                i += nthreads;
+            }
+        }));
+    }
+    for h in handles {
+        h.join().unwrap();
+    }
+}
